@@ -26,6 +26,9 @@ const CRITS: &[Option<&[&str]>] = &[
   Some(&["B64"]),
   Some(&["b64", "x-unknown"]),
   Some(&["x5t#S256"]),
+  // a list that mixes the implemented extension with an unimplemented one that IS present as a header parameter
+  Some(&["b64", "x-c"]),
+  Some(&["x-c", "b64"]),
 ];
 /// JOSE header parameter names registered by RFC 7515/7516/7518.
 const REGISTERED: &[&str] = &[
@@ -326,7 +329,7 @@ fn main() {
   let mut cx = Cx { rep: Report::new("C11"), jwk: vh::keys::Key::ed(1).public_jwk(None) };
   cx.rep.rule(
     "exhaustive table: every pair (protected, unprotected) with each header in {alg present/absent} x {b64 absent/true/false} x \
-     12 crit lists x every subset of shared names {kid, x-c, a-b (two custom names so that a shared custom name sits at different sorted positions)[, typ, x5t#S256]}, plus protected-only and unprotected-only sets, evaluated at \
+     14 crit lists x every subset of shared names {kid, x-c, a-b (two custom names so that a shared custom name sits at different sorted positions)[, typ, x5t#S256]}, plus protected-only and unprotected-only sets, evaluated at \
      13 entry points (3 encoders + detached variants, add_recipient after a b64-true and a b64-false first recipient, 3 decoders + \
      detached/second-signature variants, each followed by verify with an always-Ok verifier). Every (row, entry point) evaluation is \
      distinct by construction; expected verdict = predicate written from the statement.",
